@@ -498,9 +498,10 @@ func (w *gossipWorld) projParty(rs *cstypes.RoundState, bs sm.BlockStore, claims
 		pv = append(pv, w.projVS(pvs, rs.Height, claims[gossipClaimKey(rs.Height, int32(r), tmproto.PrevoteType)]))
 		pc = append(pc, w.projVS(pcs, rs.Height, claims[gossipClaimKey(rs.Height, int32(r), tmproto.PrecommitType)]))
 	}
-	lc := map[string]interface{}{"r": -1, "votes": w.commitVotes(nil)}
+	lc := map[string]interface{}{"r": -1, "votes": w.commitVotes(nil), "pm": []string{}}
 	if rs.LastCommit != nil {
-		lc = map[string]interface{}{"r": int(rs.LastCommit.GetRound()), "votes": w.projVS(rs.LastCommit, rs.Height-1, "")["votes"]}
+		pl := w.projVS(rs.LastCommit, rs.Height-1, claims[gossipClaimKey(rs.Height-1, rs.LastCommit.GetRound(), tmproto.PrecommitType)])
+		lc = map[string]interface{}{"r": int(rs.LastCommit.GetRound()), "votes": pl["votes"], "pm": pl["pm"]}
 	}
 	chain := []map[string]interface{}{}
 	for k := int64(1); k <= bs.Height(); k++ {
